@@ -135,8 +135,13 @@ def run_unit(u):
             for qi, quad in enumerate(quads):
                 if tier == "quick" and ei == 3 and qi not in (1, 3):
                     continue
-                jobs = [("A", drv, "plain") for drv in DRV_A + [f"imp:{t}:0" for t in range(n)]]
-                jobs += [("B", drv, "plain") for drv in DRV_B + [f"imp:{t}:0" for t in range(n)]]
+                if tier == "quick" and ei == 1 and (pi > 0 or qi in (0, 2)):
+                    continue
+                if tier == "quick" and ei == 0 and pi > 0 and qi in (0, 2):
+                    continue
+                imps = [f"imp:{t}:0" for t in range(n)] if tier == "thorough" else ["imp:0:0", f"imp:{n-1}:0"]
+                jobs = [("A", drv, "plain") for drv in DRV_A + imps]
+                jobs += [("B", drv, "plain") for drv in DRV_B + imps]
                 if qi in (0, 1):
                     jobs += [("B", drv, "int") for drv in ("inc", "dec", "hump")] + [("A", "pos", "arrays"), ("B", "dec", "arrays")]
                 for mode, drv, variant in jobs:
